@@ -300,6 +300,10 @@ func e3Case(seed uint64, n int) Case {
 						}
 						cs := cstate{}
 						for _, o := range l {
+							if o == nil {
+								r.V("C15", "slice-shared", "reader %d: List() returned a slice holding a nil entry: it is shared with another caller, who overwrote its own result", rd)
+								return
+							}
 							cs[kit.Key(o)] = mobj{o.GetNamespace(), o.GetName(), o.GetResourceVersion(), o.GetLabels()["l"]}
 						}
 						record(W+rd, e3in{Kind: "list"}, call, e3Content(cs))
@@ -439,6 +443,10 @@ func e3BigCase(seed uint64, n int) Case {
 					}
 					gens := map[string]int{}
 					for _, o := range l {
+						if o == nil {
+							r.V("C15", "slice-shared", "reader %d: List() returned a slice holding a nil entry: it is shared with another caller, who overwrote its own result", rd)
+							return
+						}
 						gens[o.GetLabels()["g"]]++
 					}
 					if len(gens) != 1 || len(l) != N {
